@@ -5,5 +5,6 @@ CONSTANTS
   Coalesce = TRUE
   RefuseAfterTorn = TRUE
   AllowCancel = TRUE
+  ArmBeforeRefuse = FALSE
   MaxFaults = 2
 INVARIANTS WholeFrames NothingAfterPartial OkImpliesWhole NotStartedNoBytes CountExact
